@@ -640,6 +640,8 @@ def r83(ctx):
             continue
         for n in walk_shallow(fn):
             if isinstance(n, ast.Attribute) and n.attr == F:
+                if oc is not None and is_self_attr(n) and P not in prog.mro(oc.name):
+                    continue            # `self.<same name>` in a class that is not a producer: a field of its own that happens to share the name
                 # reads outside are tolerated only as len()/in; any occurrence outside is reported
                 outside += 1
                 ctx.finding('R8.3', f'{oc.name if oc else mod.name}.{fn.name}:outside-access', oc, n, f'{F} of the producer is accessed outside EventProducer',
